@@ -98,7 +98,13 @@ func (f *Filler) Fill(v reflect.Value, depth int) {
 			v.Set(reflect.Zero(typ))
 			return
 		}
-		v.Set(reflect.ValueOf(Big(t)))
+		b := Big(t)
+		if !f.NoNil && t.Bool(1, 16) && b.Sign() > 0 {
+			// negative: the codec documents it as unencodable and must say so
+			// (an error), not write the magnitude
+			b.Neg(b)
+		}
+		v.Set(reflect.ValueOf(b))
 		return
 	case bigType:
 		v.Set(reflect.ValueOf(*Big(t)))
